@@ -20,7 +20,26 @@ def check(pid, tier, args):
     run.add_tlc("MC_ImageXform/interleave (row striping skeleton)", r)
     out = os.path.join(vlib.scratch(), "c15")
     os.makedirs(out, exist_ok=True)
-    vlib.run([drive, "imageconv", "-out", out, "-tier", tier, "-seed", str(vlib.seed())], timeout=3000)
+    cmd = [drive, "imageconv", "-out", out, "-tier", tier, "-seed", str(vlib.seed())]
+    p = vlib.run(cmd, timeout=3000, check=False)
+    if p.returncode != 0:
+        # a panic inside one of the library's worker goroutines cannot be recovered by the caller: the
+        # process dies.  That death is an observation of the real code; the job is found by re-running
+        # the structural part one job at a time with a marker written before each.
+        if "goroutine" not in p.stderr or "mandykoh" not in p.stderr:
+            raise vlib.Infra("imageconv driver failed: %s" % p.stderr[-1500:])
+        marker = os.path.join(vlib.scratch(), "conv_marker.ndjson")
+        p2 = vlib.run(cmd + ["-structonly", "-serial", marker, "-name", "serial.ndjson"], timeout=6000, check=False)
+        if p2.returncode == 0:
+            raise vlib.Infra("driver crash did not reproduce one job at a time: %s" % p.stderr[-1500:])
+        last = json.loads(open(marker).read().strip().splitlines()[-1])
+        first_line = [l for l in p2.stderr.splitlines() if l.startswith("panic:") or l.startswith("fatal error:")][:1]
+        run.violation({"finding_key": None, "crashing_job": last, "stderr": p2.stderr[:1500]},
+                      "process died (%s) in %s on %s %s margins %s parallelism %d" % (
+                          first_line[0] if first_line else "crash", last["helper"], last["src"], last["rect"], last["margins"], last["par"]))
+        run.cov["traces_validated_against_impl"] = 0
+        run.sample(last)
+        return run.finish()
     # the structural part again with fewer processors than the requested parallelism
     procs = ["2"] if tier == "quick" else ["2", "1", "5"]
     with open(os.path.join(out, "c15.ndjson"), "a") as f:
@@ -69,6 +88,6 @@ def check(pid, tier, args):
                          "structure": "18 source types x 7 rectangles (negative/positive origins, empty, 1xN, Nx1) x plain/sub-image x 3 helpers x parallelism {1,2,3,7,16,rows+5}"}
     run.sample(json.loads(lines[10]))
     run.sample(json.loads(lines[-1]))
-    run.assumptions += ["source colours are valid alpha-premultiplied colours (the domain on which Convert and draw.Draw agree)",
+    run.assumptions += ["for the non-premultiplied target, source colours are valid alpha-premultiplied colours (the domain on which Convert and draw.Draw agree); for the premultiplied targets every byte value in every channel position is used, invalid colours included",
                         "draw.Draw(Src) on the same inputs validates the transcription: a disagreement between PixelConv and draw.Draw is exit 2"]
     return run.finish()
